@@ -258,7 +258,7 @@ def route_job_process(ctx, recipe, rng):
         task = b2.real[root]
         job = task.__xpm__.job
         script = Path(job.path) / f"{job.name}.py"
-        env = {"PATH": os.environ.get("PATH", ""), "HOME": os.environ.get("HOME", "/tmp"), "PYTHONDONTWRITEBYTECODE": "1"}
+        env = {"PATH": os.environ.get("PATH", ""), "HOME": os.environ.get("HOME", "/tmp"), "PYTHONDONTWRITEBYTECODE": "1", "PYTHONPATH": f"{REPO}/src"}
         pr = subprocess.run([PYTHON, str(script)], env=env, capture_output=True, text=True, timeout=120, cwd="/")
         ctx.count("route:job-process")
         w = {"recipe": r2, "route": "job-process"}
